@@ -289,9 +289,28 @@ class AsyncioSelectorReactor(PosixReactorBase):
             self._reschedule()
         return dc
 
+    def _runThreadCalls(self):
+        """
+        Run the calls queued by L{callFromThread} (and anything else which
+        is due), then re-arm the timer for the next delayed call.
+        """
+        self.runUntilCurrent()
+        self._reschedule()
+
     def callFromThread(self, f, *args, **kwargs):
-        g = lambda: self.callLater(0, f, *args, **kwargs)
-        self._asyncioEventloop.call_soon_threadsafe(g)
+        """
+        See L{twisted.internet.interfaces.IReactorFromThreads.callFromThread}.
+
+        The call goes through C{threadCallQueue}, as in every other reactor,
+        so that calls run in the order they were made whatever the system
+        clock does.  (Scheduling them with C{callLater(0, ...)} ordered them
+        by the wall-clock time at which the event loop got round to each of
+        them: calls made within one tick of the clock ran in heap order, and
+        a clock stepping backwards postponed them.)
+        """
+        assert callable(f), f"{f} is not callable"
+        self.threadCallQueue.append((f, args, kwargs))
+        self._asyncioEventloop.call_soon_threadsafe(self._runThreadCalls)
 
 
 def install(eventloop=None):
